@@ -428,9 +428,20 @@ impl<T, L: Lock> Drop for SharedObservable<T, L> {
     fn drop(&mut self) {
         // Only close the state if there are no other clones of this
         // `SharedObservable`.
+        #[cfg(eyeball_verif)]
+        let mut paused = false;
         if Arc::strong_count(&self._num_clones) == 1 {
+            #[cfg(eyeball_verif)]
+            {
+                crate::verif::pause("drop_decided");
+                paused = true;
+            }
             // If there are no other clones, obtaining a read lock can't fail.
             L::read_noblock(&self.state).close();
+        }
+        #[cfg(eyeball_verif)]
+        if !paused {
+            crate::verif::pause("drop_decided");
         }
     }
 }
@@ -453,6 +464,8 @@ impl<T, L: Lock> WeakObservable<T, L> {
     /// Returns `None` if the inner value has already been dropped.
     pub fn upgrade(&self) -> Option<SharedObservable<T, L>> {
         let state = Weak::upgrade(&self.state)?;
+        #[cfg(eyeball_verif)]
+        crate::verif::pause("upgrade_between");
         let _num_clones = Weak::upgrade(&self._num_clones)?;
         Some(SharedObservable { state, _num_clones })
     }
